@@ -1,36 +1,50 @@
 import StraxModel.Lemmas.PipelineVocab
 import StraxModel.Lemmas.PipelineIter
+import StraxModel.Lemmas.PipelineStorage
+import StraxModel.Lemmas.PipelineMailbox
 import StraxModel.Props.C09
 /-
   Property C01 — results do not depend on chunking, processor, parallelism or what is stored.
 
-  Theory T3 (Model/Pipeline.lean): a run is, per data type, a chunk stream; between producer and
-  consumer sits a `Transport` (mailbox / post office / futures in order / save → rechunk → load),
-  in front of a computation an `Aligner` (`Plugin.iter`), the computation is a `Kernel`.
-  `Transport` and `Aligner` are structures that CARRY the layer theorems (content-, law-, range-
-  preservation: C05, C07, C03, C08), `ChunkHom` is the statement a plugin kind owes.  The theorems
-  below hold for ALL graphs, plans, chunkings and stored subsets (no bound on anything):
+  Theory T3 (Model/Pipeline.lean): a run is, per data type, a chunk stream; between producer and consumer sits a
+  `Transport`, in front of a computation an `Aligner` (`Plugin.iter`), the computation is a `Kernel`; `exec` runs a
+  plugin graph in topological order, `whole` is the whole-run computation.  `Transport` / `Aligner` are structures
+  that carry a content- / law- / range-preservation proof; `ChunkHom` is what a plugin kind owes.
 
-    pipeline_content   partial correctness: whatever `exec` returns is the whole-run computation
-    pipeline_total     totality on a topologically ordered graph when every layer is total
-    pipeline_correct   both together (the statement of DESIGN §6 C01)
-    stored_of_earlier_run   the hypothesis about storage is discharged by any earlier run
+  WHICH LAYERS ARE CONNECTED BY A PROVED BRIDGE (an instance built from the other property's model and theorem):
+    C07  rechunk-on-save   `Transport.rechunk`  = `rechunkAll`, from `Strax.rechunk_aux`        (`rechunk_is_transport`)
+    C03  save ∘ load       `Transport.storage`  = `Storage.saveAll` ∘ `loadAll`, from `C03.roundtrip_plain`
+                                                                                                 (`storage_is_transport`)
+    C08  Plugin.iter       `Aligner.iter`       = `Align.iterRun`, from `C08.calls_tile_run`, `rows_inside_call_dep`,
+                           totality from `C08.converges_partial`   (`iter_aligner_spec`, `iter_aligner_total_partial`)
+    C09  overlap window    `overlapKernel`      = `Overlap.runOverlap`, from `C09.overlap_whole_for_pipeline` (`overlap_hom`)
+    C05  ONE mailbox       partial correctness only: in every reachable final state of the mailbox transition system
+                           every subscriber holds the sent stream = `Transport.ident`          (`mailbox_edge_is_ident`)
+  NOT CONNECTED — carried by the end-to-end runs of checks/props/c01.py only: the single-thread PostOffice (C06 model),
+  the wiring of several mailboxes / `divide_outputs` / savers by `ThreadedMailboxProcessor` and its deadlock freedom
+  (C06 `Net`, C13), `max_workers` / executors, which origin feeds a type (`get_components`, C11).  For these the
+  theorems say: IF the edge behaves as some `Transport` THEN …; that it does is tested, not proved.
+  The chunked side (`exec`, the kernels, `Aligner.iter`, `override`) is tied to the code by the driver op `c01.exec`
+  (per-data-type chunk streams of real single-thread runs), the whole-run side by `c01.whole`.
+
+  Theorems (ALL graphs, plans, chunkings, stored subsets; no bound on anything):
+    pipeline_content        partial correctness: whatever `exec` returns is the whole-run computation
+    pipeline_total          totality on TYPED streams (`NodeTotalOn`: per data type a decidable stream type; the real
+                            instances are total on their guards only, never on all law-abiding inputs)
+    pipeline_correct        both together; instantiated in `example_correct` (Plugin.iter + rechunk edge + stored type)
+    stored_of_earlier_run   the storage hypothesis is discharged by any earlier (itself consistent) run
     pipeline_independent    two runs (different chunkings, plans, stored subsets) agree
+    vocab_content           for harness graphs every successful execution returns what `c01.whole` prints
+  `ChunkHom` from first principles: `map_hom`, `filter_hom`, `merge_hom`, `multi_hom`, `loop_hom`, `downchunk_hom`,
+  `exhaust_hom`; from a layer theorem: `overlap_hom` (C09).
 
-  `ChunkHom` instances from first principles: `map_hom`, `filter_hom`, `merge_hom`, `multi_hom`,
-  `loop_hom`, `downchunk_hom`, `exhaust_hom`; proved FROM a layer theorem: `rechunk_is_transport` (C07),
-  `overlap_hom` (C09), `iter_is_aligner` (C08); `iter_aligner_total_partial` (totality of `Plugin.iter`:
-  different kinds, ten passes suffice).
-
-  Full statement for the code as it stands (NOT provable: false at the two reproduced defects):
-    ∀ g plan src, TopoOrdered g → LawAbiding sources →
-      (every edge a mailbox / post office / storage round trip, every aligner `Plugin.iter`) →
-      ∃ env, exec plan g src = .ok env ∧ ∀ d, rows (env d) = whole g src d ∧ LawAbiding (env d)
-  Totality fails where `Plugin.iter` gives up after ten passes (D9, C08 `ten_pass_counterexample`),
-  where a stream ends with a zero-duration chunk (D16) and — for the threaded wiring — where a
-  multi-output plugin has a loader-fed sibling (D13, two senders on one mailbox: that edge is not a
-  `Transport`).  Hence the split into `pipeline_content` (unconditional) and `pipeline_total`
-  (hypotheses `Total`).
+  Full statement for the code as it stands (NOT provable, false at the reproduced defects):
+    ∀ g plan src, TopoOrdered g → LawAbiding sources → (every edge a mailbox / post office / storage round trip,
+      every aligner `Plugin.iter`) → ∃ env, exec plan g src = .ok env ∧ ∀ d, rows (env d) = whole g src d ∧ …
+  Totality fails where `Plugin.iter` gives up after ten passes (D9, `iter_aligner_not_total_witness`), where a
+  stream ends with a zero-duration chunk (D16; excluded by `iterGuardB`), and in lazy mode for a multi-output
+  plugin whose outputs reconverge (open finding lazy-multi-output-lag-deadlock; not modelled here).  Partial:
+  `iter_aligner_total_partial`, `iter_first_step_total_partial` (dependencies of different kinds, `passesSufficeB`).
 -/
 namespace Strax.C01
 open Strax Strax.Pipeline
@@ -55,37 +69,51 @@ theorem pipeline_content (g : Graph) (plan : Plan) (R : Int × Int) (src env : E
   have hmem := lookup_mem hl
   exact ⟨by simp [lookup_wenvOf, hl], henv (d, s) hmem⟩
 
-/-- **Totality.**  On a topologically ordered graph (every dependency a source or provided earlier,
-nothing provided twice, arities right) `exec` succeeds as soon as every transport, aligner and kernel
-is total on law-abiding input.  (For the code as it stands the aligner `Plugin.iter` is not total:
-D9, D16.) -/
-theorem pipeline_total (g : Graph) (plan : Plan) (R : Int × Int) (src : Env)
-    (htopo : TopoOrdered (keys src) g) (hsrc : EnvOK R src)
-    (hedge : ∀ c d, (plan.edge c d).Total)
-    (hnodes : ∀ n ∈ g, ChunkHom n.kernel ∧ n.kernel.Total ∧ n.aligner.Total n.deps.length)
+/-- **Totality on typed streams.**  `P d` is the (decidable) stream type of data type `d` — the domain in which the
+layer theorems speak (`plainStreamB` for a rechunking edge, `iterGuardB` for `Plugin.iter`, …).  On a topologically
+ordered graph whose sources and stored streams have their types and whose nodes are total on typed inputs
+(`NodeTotalOn`: edge transports, aligner and kernel together; discharged per instance by `node_total_of_edges`,
+`rechunk_totalOn_plain`, `storage_totalOn`, `iter_first_step_total_partial`, …) `exec` succeeds.
+There is deliberately no hypothesis "total on ALL law-abiding inputs": that is false of `Plugin.iter` (D9, D16), of
+`Chunk.merge` (unequal row counts), of the exhaust kernel (second call) and of the guarded transports. -/
+theorem pipeline_total (g : Graph) (plan : Plan) (R : Int × Int) (P : String → List Chunk → Prop) (src : Env)
+    (htopo : TopoOrdered (keys src) g) (hsrc : EnvOK R src) (hPsrc : ∀ p ∈ src, P p.1 p.2)
+    (hPst : ∀ d s, lookup d plan.stored = some s → P d s)
+    (hnodes : ∀ n ∈ g, ChunkHom n.kernel ∧ NodeTotalOn (plan.edge n.name) R P n)
     (hst : StoredOK plan.stored R g (wenvOf src)) :
-    ∃ env, exec plan g src = .ok env :=
-  exec_total hedge htopo hnodes hsrc hst
+    ∃ env, exec plan g src = .ok env ∧ ∀ p ∈ env, P p.1 p.2 :=
+  exec_total_typed hPst htopo hnodes hsrc hPsrc hst
 
-/-- **C01 as stated in DESIGN §6**: acyclic (topologically ordered) graph → every edge a transport
-(by typing) → every node a chunk homomorphism → for every data type `d`:
-`rows (exec g plan d) = whole g src d ∧ LawAbiding (exec g plan d)`, and the stream tiles the run. -/
-theorem pipeline_correct (g : Graph) (plan : Plan) (R : Int × Int) (src : Env)
-    (htopo : TopoOrdered (keys src) g) (hsrc : EnvOK R src)
-    (hedge : ∀ c d, (plan.edge c d).Total)
-    (hnodes : ∀ n ∈ g, ChunkHom n.kernel ∧ n.kernel.Total ∧ n.aligner.Total n.deps.length)
+/-- **C01 as stated in DESIGN §6**, on typed streams: topologically ordered graph, every edge a transport (by
+typing) that is total on its input type, every node a chunk homomorphism that is total on typed inputs ⇒ `exec`
+succeeds and for every data type `d`: `rows (exec g plan d) = whole g src d ∧ LawAbiding (exec g plan d)`, tiling
+the run.  Instantiated with `Plugin.iter`, a rechunking edge and a stored intermediate in `example_correct` below. -/
+theorem pipeline_correct (g : Graph) (plan : Plan) (R : Int × Int) (P : String → List Chunk → Prop) (src : Env)
+    (htopo : TopoOrdered (keys src) g) (hsrc : EnvOK R src) (hPsrc : ∀ p ∈ src, P p.1 p.2)
+    (hPst : ∀ d s, lookup d plan.stored = some s → P d s)
+    (hnodes : ∀ n ∈ g, ChunkHom n.kernel ∧ NodeTotalOn (plan.edge n.name) R P n)
     (hst : StoredOK plan.stored R g (wenvOf src)) :
     ∃ env w, exec plan g src = .ok env ∧ whole g (wenvOf src) = .ok w ∧
       ∀ d s, lookup d env = some s → lookup d w = some (rows s) ∧ Pipeline.LawAbiding s ∧ span s = some R := by
-  obtain ⟨env, he⟩ := pipeline_total g plan R src htopo hsrc hedge hnodes hst
+  obtain ⟨env, he, -⟩ := pipeline_total g plan R P src htopo hsrc hPsrc hPst hnodes hst
   obtain ⟨w, hw, hall⟩ := pipeline_content g plan R src env hsrc
     (hom_of_topo htopo (fun n hn => (hnodes n hn).1)) hst he
   exact ⟨env, w, he, hw, hall⟩
 
+/-- a node is total on typed inputs as soon as each edge transport is total from the dependency's type to some
+`E d` and the node's step is total on `E`-typed inputs with typed outputs -/
+theorem node_total_of_edges (edge : String → Transport) (R : Int × Int) (P E : String → List Chunk → Prop) (n : Node)
+    (hedge : ∀ d ∈ n.deps, (edge d).TotalOn (P d) (E d))
+    (hstep : ∀ ins : List (List Chunk), ins.length = n.deps.length →
+      (∀ p ∈ n.deps.zip ins, Pipeline.LawAbiding p.2 ∧ span p.2 = some R ∧ E p.1 p.2) →
+      ∃ outs, n.step ins = .ok outs ∧ outs.length = n.provides.length ∧ ∀ p ∈ n.provides.zip outs, P p.1 p.2) :
+    NodeTotalOn edge R P n :=
+  nodeTotalOn_of hedge hstep
+
 /-! ## 2. what is stored -/
 
-/-- **Storage filled by an earlier run is consistent.**  Run 1 (any plan, nothing stored, sources
-`src1`) ends in `env1`; storage then holds, for some data types, what some transport (save →
+/-- **Storage filled by an earlier run is consistent.**  Run 1 (any plan, storage consistent — e.g. empty, `storedOK_nil`, or itself
+filled by earlier runs, as the twin context of the harness does cumulatively —, sources `src1`) ends in `env1`; storage then holds, for some data types, what some transport (save →
 rechunk → load, C03 ∘ C07) makes of run 1's stream.  Then a second run over ANY other chunking of
 the same source rows (`wenvOf src2 = wenvOf src1`) satisfies the storage hypothesis of
 `pipeline_content`. -/
@@ -93,12 +121,12 @@ theorem stored_of_earlier_run (g : Graph) (plan1 : Plan) (R : Int × Int) (src1 
     (stored : List (String × List Chunk))
     (htopo : TopoOrdered (keys src1) g) (hsrc1 : EnvOK R src1)
     (hhom : ∀ n ∈ g, ChunkHom n.kernel)
-    (hempty : plan1.stored = [])
+    (hst1 : StoredOK plan1.stored R g (wenvOf src1))
     (h1 : exec plan1 g src1 = .ok env1)
     (hsame : wenvOf src2 = wenvOf src1)
     (hstore : ∀ d s, lookup d stored = some s → ∃ s0, ∃ T : Transport, lookup d env1 = some s0 ∧ T.run s0 = .ok s) :
     StoredOK stored R g (wenvOf src2) := by
-  obtain ⟨hw, henv1⟩ := exec_rel (hom_of_topo htopo hhom) hsrc1 (by rw [hempty]; exact storedOK_nil R g _) h1
+  obtain ⟨hw, henv1⟩ := exec_rel (hom_of_topo htopo hhom) hsrc1 hst1 h1
   rw [hsame]
   apply storedOK_of_final (w' := wenvOf env1) (by rw [keys_wenvOf]; exact htopo) hw
   intro d s hs r hr
@@ -162,6 +190,48 @@ theorem rechunk_is_transport :
 theorem comp_total (t1 t2 : Transport) (h1 : t1.Total) (h2 : t2.Total) : (t1.comp t2).Total :=
   Transport.comp_total h1 h2
 
+/-- the identity transport is total between any equal types -/
+theorem ident_totalOn (P : List Chunk → Prop) : Transport.ident.TotalOn P P :=
+  fun inp _ hp => ⟨inp, rfl, hp⟩
+
+/-- the rechunking transport is total exactly on C07's domain (plain streams of one run, targets ≥ 1 row) -/
+theorem rechunk_totalOn_plain : Transport.rechunk.TotalOn (fun s => plainStreamB s = true) (fun _ => True) := by
+  intro inp _ hp
+  obtain ⟨out, h⟩ := Transport.rechunk_total_on_plain inp hp
+  exact ⟨out, h, trivial⟩
+
+/-- **A mailbox edge is the identity transport under EVERY schedule** (C05 `delivery_exact`): for the labelled
+transition system of `strax.Mailbox` (any capacity, lazy or eager, any gate rule, any number of subscribers, plain
+messages or futures resolved by worker threads), a producer that sends the chunks of `s` in order, and ANY reachable
+final state, every subscriber has been handed exactly `s` — what `Transport.ident` returns.  (That a final state
+is reached, i.e. no deadlock, is C05 `deadlock_free` / C06 for networks; the single-thread PostOffice and the
+wiring of several mailboxes are exercised by the end-to-end runs only.) -/
+theorem mailbox_edge_is_ident (s : List Chunk) (fut : Nat → Bool) (c : Mailbox.Config)
+    (hprog : c.prog = streamProg fut s.length) (hv : c.valid = true)
+    (st : Mailbox.Sys) (hreach : Mailbox.Reachable c st) (hfin : st.final = true)
+    (i : Nat) (r : Mailbox.Reader) (hr : st.readers[i]? = some r) :
+    Transport.ident.run s = .ok (decodeMsgs s r.got) :=
+  mailbox_delivers s fut c hprog hv st hreach hfin i r hr
+
+example : ({ cap := some 2, lazy := true, gateRule := .hasMsg, drive := [true, false],
+             prog := streamProg (fun i => i % 2 == 0) 3, workers := [[0, 2]], killers := [] } : Mailbox.Config).valid = true := by
+  decide
+
+/-- **save ∘ load is a transport** (C03 `roundtrip_plain`): `Saver.save_from` without rechunking followed by the
+loader keeps content, laws and range of every non-empty stream of run `rid`, and is total on that domain
+(`storableStreamB`).  With rechunking the saver factors as rechunker ∘ plain save (C03 `save_rechunk_factors`), i.e.
+`Transport.rechunk.comp (Transport.storage hdr rid)`. -/
+theorem storage_is_transport (hdr : Storage.Header) (rid : String) :
+    ∃ T : Transport, (∀ s, storableStreamB rid s = true → T.run s =
+        (match Storage.saveAll (-1) false hdr s with
+         | .error e => .error e
+         | .ok (md, files) => Storage.loadAll md files)) ∧
+      T.TotalOn (fun s => storableStreamB rid s = true) (fun _ => True) :=
+  ⟨Transport.storage hdr rid, fun s h => by
+      simp only [Transport.storage, Transport.ofSpec, storageRun, h, if_true]
+      split <;> simp_all,
+    Transport.storage_totalOn hdr rid⟩
+
 /-! ## 4. `ChunkHom` of the plugin kinds, from first principles -/
 
 /-- row-wise plugins (one output row per input row, same interval): ANY law-abiding partition of the
@@ -208,14 +278,21 @@ theorem exhaust_hom (w : List Row → List Row) (hw : RangeLaw w) (out : String)
 
 /-- the input side of a single-dependency plugin and of the exhaust plugin (everything concatenated)
 are aligners from first principles, and total -/
-theorem single_aligner_total : Aligner.single.Total 1 := by
-  intro R ins hl _ _
-  obtain ⟨s, rfl⟩ := List.length_eq_one_iff.mp hl
-  exact ⟨_, rfl⟩
+theorem single_aligner_total (s : List Chunk) : Aligner.single.run [s] = .ok [s] := rfl
 
-theorem exhaust_aligner_total : Aligner.exhaust.Total 1 := by
-  intro R ins hl _ _
-  obtain ⟨s, rfl⟩ := List.length_eq_one_iff.mp hl
+theorem exhaust_aligner_total (s : List Chunk) : Aligner.exhaust.run [s] = .ok [concatAll s] := rfl
+
+/-- a single-dependency row-wise / filtering node never fails, whatever stream arrives -/
+theorem map_node_total (n : Node) (g : Row → Option Row) (out : String) (ha : n.aligner = Aligner.single)
+    (hk : n.kernel = mapKernel g out) (s : List Chunk) : n.step [s] = .ok [perChunk (List.filterMap g) out s] := by
+  simp [Node.step, ha, hk, Aligner.single, singleRun, mapKernel]
+
+/-- an exhaust node never fails: its aligner hands over ONE chunk (the second call, `RuntimeError`, cannot happen);
+NB the exhaust KERNEL alone is not total on all aligned inputs -/
+theorem exhaust_node_total (n : Node) (w : List Row → List Row) (out : String) (ha : n.aligner = Aligner.exhaust)
+    (hk : n.kernel = exhaustKernel w out) (c : Chunk) (cs : List Chunk) :
+    ∃ o, n.step [c :: cs] = .ok [[o]] := by
+  simp only [Node.step, ha, hk, Aligner.exhaust, exhaustRun, concatAll, exhaustKernel]
   exact ⟨_, rfl⟩
 
 /-! ## 5. instances that await a layer theorem -/
@@ -245,6 +322,13 @@ theorem iter_is_aligner (rid : String) (T0 T1 : Int) (deps : List Align.Dep) (st
       (if iterGuardB rid T0 T1 deps ins then iterAligner deps strict ins else .error .other) :=
   ⟨Aligner.iter rid T0 T1 deps strict, fun _ => rfl⟩
 
+/-- the content of `iter_is_aligner`: on its guard, whatever `Align.iterRun` returns is an aligned law-abiding
+partition of the same rows over the run -/
+theorem iter_aligner_spec (rid : String) (T0 T1 : Int) (deps : List Align.Dep) (strict : Bool)
+    (R : Int × Int) (ins out : List (List Chunk)) (hne : ins ≠ []) (hok : StreamsOK R ins)
+    (h : iterAlignerG rid T0 T1 deps strict ins = .ok out) : Aligned R out ∧ out.map rows = ins.map rows :=
+  iterAlignerG_spec rid T0 T1 deps strict R ins out hne hok h
+
 /-- Totality of that aligner.  PARTIAL: proved (C08 `converges_partial`) for dependencies of pairwise
 different kinds and under `passesSufficeB` ("the re-trim loop does not run out of its ten passes").
 Full statement (false of the code as it stands, D9; same-kind totality not yet proved in C08):
@@ -257,7 +341,7 @@ theorem iter_aligner_total_partial (rid : String) (T0 T1 : Int) (deps : List Ali
   simp only [iterGuardB, Bool.and_eq_true, beq_iff_eq] at hg'
   obtain ⟨⟨⟨hlen, hv⟩, hT⟩, he⟩ := hg'
   obtain ⟨r, hr, -⟩ := C08.converges_partial hlen hdeps hv hT he hk hp
-  exact ⟨streamsOfCalls deps r.calls, by
+  exact ⟨streamsOfCalls deps (ridOf ins) (targetsOf ins) r.calls, by
     simp [Aligner.iter, Aligner.ofSpec, iterAlignerG, hg, iterAligner, hr]⟩
 
 /-- the abstract form: any alignment function with the aligner layer theorem is an `Aligner` -/
@@ -289,7 +373,7 @@ execution returns -/
 /-- For a graph of the harness vocabulary (any plan, any aligner for the two-dependency kinds; the
 overlap-window kinds by C09 `overlap_vocab_for_pipeline`): every successful execution returns, for
 every data type, the rows the driver computes with `Vocab.wholeV`. -/
-theorem vocab_content (vg : List Vocab.VNode) (a2 : Aligner) (plan : Plan) (R : Int × Int) (src env : Env)
+theorem vocab_content (vg : List Vocab.VNode) (a2 : Vocab.VNode → Aligner) (plan : Plan) (R : Int × Int) (src env : Env)
     (hsrc : EnvOK R src) (htopo : TopoOrdered (keys src) (vg.map (Vocab.toNode a2)))
     (hst : StoredOK plan.stored R (vg.map (Vocab.toNode a2)) (wenvOf src))
     (h : exec plan (vg.map (Vocab.toNode a2)) src = .ok env) :
@@ -328,7 +412,7 @@ theorem vocab_content (vg : List Vocab.VNode) (a2 : Aligner) (plan : Plan) (R : 
     have harity := this htopo _ hmem
     simp only [Vocab.toNode, hout, List.length_nil] at harity
     cases hk : n.kind <;> simp [hk, Vocab.kernelOf, mapKernel, mergeKernel, pairKernel, firstKernel, loopKernel,
-      overlapKernel, streamKernel, downKernel, exhaustKernel] at harity
+      overlapKernel, streamKernel, downKernel, exhaustKernel, restamp] at harity
 
 /-! ## 7. non-vacuity: concrete instances of every hypothesis -/
 
@@ -369,18 +453,18 @@ def exAligner : Aligner := Aligner.ofSpec
         rcases hs with rfl | rfl <;> rcases ht with rfl | rfl <;> simp [hc.2]
       · cases h)
 
-example : TopoOrdered ["sa"] (exGraph.map (Vocab.toNode exAligner)) := by decide
+example : TopoOrdered ["sa"] (exGraph.map (Vocab.toNode (fun _ => exAligner))) := by decide
 
 /-- the two chunkings and two plans give different streams … -/
-example : (exec idPlan (exGraph.map (Vocab.toNode exAligner)) [("sa", chunkingA)]).toOption.map
+example : (exec idPlan (exGraph.map (Vocab.toNode (fun _ => exAligner))) [("sa", chunkingA)]).toOption.map
       (fun env => (lookup "t4" env).map (·.length)) = some (some 5) ∧
-    (exec concatPlan (exGraph.map (Vocab.toNode exAligner)) [("sa", chunkingA)]).toOption.map
+    (exec concatPlan (exGraph.map (Vocab.toNode (fun _ => exAligner))) [("sa", chunkingA)]).toOption.map
       (fun env => (lookup "t4" env).map (·.length)) = some (some 1) := by decide +kernel
 
 /-- … with the same rows, those of the whole-run computation the driver evaluates -/
-example : (exec idPlan (exGraph.map (Vocab.toNode exAligner)) [("sa", chunkingA)]).toOption.map
+example : (exec idPlan (exGraph.map (Vocab.toNode (fun _ => exAligner))) [("sa", chunkingA)]).toOption.map
       (fun env => (lookup "t4" env).map (fun s => ids (rows s))) = some (some [736200, 753546, 770892, 788238]) ∧
-    (exec concatPlan (exGraph.map (Vocab.toNode exAligner)) [("sa", chunkingB)]).toOption.map
+    (exec concatPlan (exGraph.map (Vocab.toNode (fun _ => exAligner))) [("sa", chunkingB)]).toOption.map
       (fun env => (lookup "t4" env).map (fun s => ids (rows s))) = some (some [736200, 753546, 770892, 788238]) ∧
     (Vocab.wholeV exGraph [("sa", srcRows)]).toOption.map (fun w => (lookup "t4" w).map ids)
       = some (some [736200, 753546, 770892, 788238]) := by decide +kernel
@@ -389,7 +473,7 @@ example : (exec idPlan (exGraph.map (Vocab.toNode exAligner)) [("sa", chunkingA)
 def storedT1 : List (String × List Chunk) :=
   [("t1", [⟨"t1", "sa", some "0", 0, 14, srcRows.map (Vocab.mapId 3), none, [⟨"0", 0, 14⟩], 1⟩])]
 
-example : storedOKB storedT1 (0, 14) (exGraph.map (Vocab.toNode exAligner)) [("sa", srcRows)] = true ∧
+example : storedOKB storedT1 (0, 14) (exGraph.map (Vocab.toNode (fun _ => exAligner))) [("sa", srcRows)] = true ∧
     envOKB (0, 14) [("sa", chunkingA)] = true := by decide +kernel
 
 /-- the hypotheses of the kind instances hold of the vocabulary's functions -/
@@ -422,5 +506,103 @@ example : iterGuardB "0" 0 14 [⟨"sa", "sa"⟩, ⟨"sb", "sb"⟩] [chunkingA, c
 
 /-- the plain-stream guard of the rechunk transport holds of an ordinary stream -/
 example : plainStreamB chunkingA = true := by decide +kernel
+
+/-! ## 8. `pipeline_correct` instantiated: `Plugin.iter` + a rechunking edge + a stored intermediate
+
+`t1 = pairfirst(sa, sb)` aligned by `Aligner.iter` (C08), `t2 = map(t1)` behind a rechunking edge (C07), stored as one
+chunk and therefore taken from storage, `t3 = filter(t2)`.  Every hypothesis of `pipeline_correct` is discharged by
+the instance theorems (`iter_first_step_total_partial`, `rechunk_totalOn_plain`, `ident_totalOn`, `map_node_total`,
+`Vocab.kernelOf_hom`, `storedOK_of_B`); `decide` only evaluates their decidable side conditions on the concrete
+streams (guard, `passesSufficeB`, `plainStreamB`, topological order, `storedOKB`). -/
+
+def exSb : List Chunk :=
+  [⟨"sb", "sb", some "0", 0, 9, [⟨2, 3, 200⟩, ⟨5, 8, 201⟩], none, [⟨"0", 0, 9⟩], 1⟩,
+   ⟨"sb", "sb", some "0", 9, 14, [⟨12, 14, 202⟩], none, [⟨"0", 9, 14⟩], 1⟩]
+def exDeps : List Align.Dep := [⟨"sa", "sa"⟩, ⟨"sb", "sb"⟩]
+def exIter : Vocab.VNode → Aligner := fun _ => Aligner.iter "0" 0 14 exDeps true
+def exGraph2 : List Vocab.VNode :=
+  [⟨.pairfirst 3, ["sa", "sb"], ["t1"]⟩, ⟨.map 1, ["t1"], ["t2"]⟩, ⟨.filter 2 0, ["t2"], ["t3"]⟩]
+/-- what a rechunking saver left of `t2`: one chunk -/
+def exStoredT2 : List Chunk :=
+  [⟨"t2", "sa", some "0", 0, 14, (srcRows.map (Vocab.mapId 3)).map (Vocab.mapId 1), none, [⟨"0", 0, 14⟩], 1⟩]
+def exPlan : Plan := ⟨fun c _ => if c = "t2" then Transport.rechunk else Transport.ident, [("t2", exStoredT2)]⟩
+def exSrc : Env := [("sa", chunkingA), ("sb", exSb)]
+/-- the stream types: the two sources are the given chunkings, `t1` must be a plain stream (it feeds the rechunker) -/
+def exP (d : String) (s : List Chunk) : Prop :=
+  if d = "sa" then s = chunkingA else if d = "sb" then s = exSb else if d = "t1" then plainStreamB s = true else True
+
+theorem example_correct :
+    ∃ env w, exec exPlan (exGraph2.map (Vocab.toNode exIter)) exSrc = .ok env ∧
+      whole (exGraph2.map (Vocab.toNode exIter)) (wenvOf exSrc) = .ok w ∧
+      ∀ d s, lookup d env = some s → lookup d w = some (rows s) ∧ Pipeline.LawAbiding s ∧ span s = some (0, 14) := by
+  refine pipeline_correct _ exPlan (0, 14) exP exSrc (by decide) ((envOKB_iff _ _).1 (by decide +kernel)) ?_ ?_ ?_
+    (storedOK_of_B (by decide +kernel))
+  · intro p hp
+    simp only [exSrc, List.mem_cons, List.not_mem_nil, or_false] at hp
+    rcases hp with rfl | rfl <;> simp [exP]
+  · intro d s hl
+    simp only [exPlan, lookup] at hl
+    split at hl
+    · rename_i hd; subst hd; simp [exP]
+    · cases hl
+  · intro n hn
+    simp only [exGraph2, List.map_cons, List.map_nil, List.mem_cons, List.not_mem_nil, or_false] at hn
+    rcases hn with rfl | rfl | rfl
+    · -- t1 = pairfirst(sa, sb) behind `Plugin.iter`
+      refine ⟨Vocab.kernelOf_hom _ _ rfl, node_total_of_edges _ (0, 14) exP exP _ ?_ ?_⟩
+      · intro d _
+        exact ident_totalOn _
+      · intro ins hlen hall
+        obtain ⟨a, b, rfl⟩ := length_two (by simpa [Vocab.toNode] using hlen)
+        have ha := hall ("sa", a) (by simp [Vocab.toNode])
+        have hb := hall ("sb", b) (by simp [Vocab.toNode])
+        have ea : a = chunkingA := by simpa [exP] using ha.2.2
+        have eb : b = exSb := by simpa [exP] using hb.2.2
+        subst ea; subst eb
+        obtain ⟨o, ho, hplain, -, -⟩ := iter_first_step_total_partial "0" 0 14 exDeps true (Vocab.gMap 3) "t1"
+          (Vocab.gMap_ip 3) (Vocab.toNode exIter ⟨.pairfirst 3, ["sa", "sb"], ["t1"]⟩) rfl rfl chunkingA exSb
+          (by decide +kernel) (by decide +kernel)
+          (by intro s hs; simp only [List.mem_cons, List.not_mem_nil, or_false] at hs
+              rcases hs with rfl | rfl
+              · exact ⟨ha.1, ha.2.1⟩
+              · exact ⟨hb.1, hb.2.1⟩)
+          (by decide) (by decide +kernel)
+        exact ⟨[o], ho, rfl, by intro p hp; simp [Vocab.toNode] at hp; subst hp; simpa [exP] using hplain⟩
+    · -- t2 = map(t1) behind a rechunking edge
+      refine ⟨Vocab.kernelOf_hom _ _ rfl, node_total_of_edges _ (0, 14) exP (fun _ _ => True) _ ?_ ?_⟩
+      · intro d hd
+        simp only [Vocab.toNode, List.mem_cons, List.not_mem_nil, or_false] at hd
+        subst hd
+        have : exP "t1" = fun s => plainStreamB s = true := by funext s; simp [exP]
+        simpa [exPlan, Vocab.toNode, Vocab.out0, this] using rechunk_totalOn_plain
+      · intro ins hlen _
+        obtain ⟨s, rfl⟩ := List.length_eq_one_iff.mp (by simpa [Vocab.toNode] using hlen)
+        exact ⟨_, map_node_total _ (Vocab.gMap 1) "t2" rfl rfl s, rfl, by intro p hp; simp [Vocab.toNode] at hp; subst hp; simp [exP]⟩
+    · -- t3 = filter(t2)
+      refine ⟨Vocab.kernelOf_hom _ _ rfl, node_total_of_edges _ (0, 14) exP exP _ ?_ ?_⟩
+      · intro d _
+        exact ident_totalOn _
+      · intro ins hlen _
+        obtain ⟨s, rfl⟩ := List.length_eq_one_iff.mp (by simpa [Vocab.toNode] using hlen)
+        exact ⟨_, map_node_total _ (Vocab.gFilter 2 0) "t3" rfl rfl s, rfl, by intro p hp; simp [Vocab.toNode] at hp; subst hp; simp [exP]⟩
+
+/-- … and its conclusion evaluated: whatever environment `exec` returns (the rechunker does not even have to be run
+to know this), `t3` carries exactly the ids of the whole-run computation, which is what the driver's `c01.whole`
+prints for this graph -/
+example : ∀ env, exec exPlan (exGraph2.map (Vocab.toNode exIter)) exSrc = .ok env →
+    ∀ s, lookup "t3" env = some s → ids (rows s) = [97155, 99077] ∧ Pipeline.LawAbiding s ∧ span s = some (0, 14) := by
+  intro env he s hs
+  obtain ⟨env', w, he', hw, hall⟩ := example_correct
+  rw [he] at he'
+  cases he'
+  obtain ⟨h1, h2, h3⟩ := hall "t3" s hs
+  have hev : ((whole (exGraph2.map (Vocab.toNode exIter)) (wenvOf exSrc)).toOption.bind (lookup "t3")).map ids
+      = some [97155, 99077] := by decide +kernel
+  rw [hw] at hev
+  simp only [Except.toOption, Option.bind_some, h1, Option.map_some, Option.some.injEq] at hev
+  exact ⟨hev, h2, h3⟩
+
+example : (Vocab.wholeV exGraph2 [("sa", srcRows), ("sb", rows exSb)]).toOption.map (fun w => (lookup "t3" w).map ids)
+    = some (some [97155, 99077]) := by decide +kernel
 
 end Strax.C01
